@@ -37,7 +37,8 @@ Definition wplan0 : wplan := {| w_lat := 0; w_fail := false; w_echo := None; w_r
 
 (* Stall d: a callback that takes d microseconds of wall time (a slow handler, a blocking write, a GC pause): the clock moves on WITHIN the
    iteration, so timers that fall due meanwhile run in the next iteration together with what this one has made ready *)
-Inductive ext := Call (c : cid) | Rx (p : pkt) | ConnMade | ConnLost | Stall (d : Z).
+Inductive ext := Call (c : cid) | Rx (p : pkt) | ConnMade | ConnLost | Stall (d : Z)
+  | Cancel (c : cid).     (* the caller's task is cancelled from OUTSIDE (an outer wait_for, a shutdown) *)
 
 Inductive cb :=
 | CbEffect (timed_out : bool)
@@ -49,11 +50,12 @@ Inductive cb :=
 
 (* what the caller of send_cmd gets: a packet, ProtocolSendFailed, or -- raw, through wait_for --
    the exception the FSM put on its future (TransportError, ProtocolFsmError); ErrOther = anything else *)
-Inductive outcome := OkPkt (p : pkt) | ErrSendFailed | ErrExn (e : exn) | ErrOther.
+Inductive outcome := OkPkt (p : pkt) | ErrSendFailed | ErrExn (e : exn) | ErrOther | ErrCancelled.
 Inductive obs := Write (t : Z) (c : cid) | Done (t : Z) (c : cid) (o : outcome) | LoopExn (t : Z) (n : nat).
 
 Inductive estat := ENotStarted | ESleeping (old : nat) | EWoken (old : nat) | ERunning | EDone | ECancelled.
-Inductive cstat := CNone | CWaiting | CTimedOut (* wait_for's timer called task.cancel() *) | CDone.
+Inductive cstat := CNone | CWaiting | CTimedOut (* wait_for's timer called task.cancel() *) | CDone
+  | CCancelled.   (* task.cancel() from outside: CancelledError, not TimeoutError, leaves send_cmd -- nobody resets the FSM *)
 
 Record ctx := { state : st; cur : option cid; curfut : option cid;
                 txc : nat; txl : nat; mult : nat;
@@ -390,8 +392,25 @@ Definition caller_timer (w : world) (c : cid) : R :=
   | _ => Ok w
   end.
 
+(* task.cancel() from outside.  A task not yet started never runs; a waiting one has its future cancelled (or, the future being done already,
+   is marked _must_cancel) and wakes with CancelledError; one whose wait_for timer has fired already has been asked to cancel twice, so the
+   timeout context lets the CancelledError through instead of turning it into TimeoutError *)
+Definition caller_cancel (w : world) (c : cid) : R :=
+  match aget CNone c (callers w) with
+  | CNone => Ok (set_caller w c CDone)
+  | CWaiting =>
+      let w := set_caller w c CCancelled in
+      if fut_done (fut_of w c) then Ok w
+      else Ok (call_soon (set_fut w c FCancelled) (CbCallerWake c))
+  | CTimedOut => Ok (set_caller w c CCancelled)
+  | _ => Ok w
+  end.
+
 Definition caller_wake (w : world) (c : cid) : R :=
   match aget CNone c (callers w) with
+  | CCancelled =>   (* CancelledError propagates: the timeout context drops its timer, send_cmd's handlers do not see it *)
+      let w := cancel_timer w (CbCallerTimer c) in
+      Ok (emit (set_caller w c CDone) (Done (now w) c ErrCancelled))
   | CWaiting =>   (* the future completed normally *)
       let w := cancel_timer w (CbCallerTimer c) in
       let o := match fut_of w c with FRes p => OkPkt p | FExn ERetries => ErrSendFailed | FExn e => ErrExn e | _ => ErrOther end in
@@ -417,10 +436,18 @@ Definition conn_lost (w : world) : R :=
   | _ => set_state w Inactive (HExn ETransport)
   end.
 
+(* send_fnc_wrapper: except TransportError -- the command fails, if it is still the one in flight (a write that fails after its command
+   has ended fails nobody) *)
+Definition fail_write (w : world) (c : cid) : R :=
+  match cur (cx w) with
+  | Some k => if Nat.eqb k c then set_state w Idle (HExn ETransport) else Ok w
+  | None => Ok w
+  end.
+
 (* the transport hands the frame to the radio (or fails) and the world reacts *)
 Definition do_write (w : world) (n : nat) (c : cid) : R :=
   let pl := plan n in
-  if w_fail pl then set_state w Idle (HExn ETransport)      (* send_fnc_wrapper: except TransportError *)
+  if w_fail pl then fail_write w c
   else
     let w := emit w (Write (now w) c) in
     let ci := cmds c in
@@ -451,13 +478,14 @@ Definition run_cb (w : world) (c : cb) : R :=
   | CbWriter c => writer_start w c
   | CbWTimer n c => Ok (call_soon w (CbWWake n c))
   | CbWWake n c => do_write w n c
-  | CbCallerStart c => caller_start w c
+  | CbCallerStart c => match aget CNone c (callers w) with CNone => caller_start w c | _ => Ok w end   (* cancelled before its first step *)
   | CbCallerTimer c => caller_timer w c
   | CbCallerWake c => caller_wake w c
   | CbExt (Call c) => Ok (call_soon w (CbCallerStart c))
   | CbExt (Rx p) => pkt_rcvd w p
   | CbExt ConnMade => conn_made w
   | CbExt ConnLost => conn_lost w
+  | CbExt (Cancel c) => caller_cancel w c
   | CbExt (Stall d) => Ok (upd_loop w (now w + Z.max d 0) (ready w) (batch w) (timers w) (seq w))
   end.
 
